@@ -18,7 +18,7 @@ class Abort(BaseException):
 
 class Task:
     __slots__ = ("sched", "fn", "name", "proc", "sem", "done", "waiting", "timed", "exc", "thread", "blocked_on", "where",
-                 "index", "kind", "started_by")
+                 "index", "kind", "started_by", "early_ok")
 
     def __init__(self, sched, fn, name, proc, kind):
         self.sched, self.fn, self.name, self.proc, self.kind = sched, fn, name, proc, kind
@@ -26,6 +26,7 @@ class Task:
         self.done = False
         self.waiting = None
         self.timed = False
+        self.early_ok = True     # see prims._timed_wait
         self.exc = None
         self.blocked_on = None
         self.where = None
